@@ -74,6 +74,7 @@ def coq_sources():
 def step_gen(log):
     """Regenerate coq/Gen/Generated.v from /repo's sources."""
     with Lock("gen"):
+        os.makedirs(os.path.join(COQ, "Gen"), exist_ok=True)
         rc, out = sh(["go", "build", "-o", os.path.join(BUILD, "gen"), "."], cwd=os.path.join(VERIF, "gen"), timeout=300)
         log.append("[gen build] rc=%d\n%s" % (rc, out))
         if rc != 0:
